@@ -7,13 +7,13 @@
 # replayed: real server in a child process, real client discovering, selecting, connecting, writing
 # and reading back.
 import vf
-from _family_f import dedupe, need
+from _family_f import dedupe, need, Background
 
 
 def body(run):
     q = run.quick()
     exe = [None]
-    res = run.parallel(
+    bg = Background(
         lambda: run.tlc("Handshake", "Handshake", "Handshake_mc_quick.cfg" if q else "Handshake_mc.cfg",
                         label="contract: all invariants, honest and scripted server, endpoint and raw clients", timeout=3000),
         lambda: run.tlc("Handshake", "Handshake", "Handshake_dev_drop.cfg", expect="violation", count=False,
@@ -22,18 +22,22 @@ def body(run):
                         label="deviation demo: user-token policy of a policy that is not enabled violates InvTokens"),
         lambda: run.tlc("Handshake", "Handshake", "Handshake_dev_tokkey.cfg", expect="violation", count=False,
                         label="deviation demo (the code's defect until 76fe2a1): token policy key limits applied to the client key violate InvInterop"),
+    )
+    res = run.parallel(
+        lambda: None, lambda: None, lambda: None, lambda: None,
         lambda: run.tlc("Handshake", "Handshake",
                         "Handshake_gen_interop_quick.cfg" if q else "Handshake_gen_interop_thorough.cfg",
-                        mode="gen", label="rows: one per terminal state of an endpoint-following client", timeout=3000),
+                        mode="gen", count=False, label="rows: one per terminal state of an endpoint-following client", timeout=3000),
         lambda: exe.__setitem__(0, run.go_build("handshake")),
     )
     rows = dedupe(res[4].rows)
     if not rows:
         raise vf.Inconclusive("TLC emitted no rows")
-    run.log("TLC: %d states; %d interop rows to replay" % (run.cov["states"], len(rows)))
+    run.log("%d interop rows to replay" % len(rows))
     results = run.go_run(exe[0], ["-prop", "C37", "-par", "4" if q else "8"], cases=rows, timeout=3000)
     need(results, rows, "interop")
     run.absorb(results)
+    bg.join()
     run.cov["behaviours_replayed"] = len(rows)
     run.cov["server_configurations"] = len({vf.json.dumps(r["cfg"], sort_keys=True) for r in rows})
     run.cov["rule"] = ("one case per TLC terminal state of the generation model = (server configuration, policy, mode, "
